@@ -14,6 +14,8 @@ from .. import cards, yrun
 from ..engine import digest
 from ..ref import ref_conv, ref_nlo
 
+HISTORY_SWEEP = True
+HISTORY_SWEEP_PER_PROCESS = 14
 ID = "C04"
 ZLAT = sorted(set([10.0**-k for k in range(1, 8)] + [1 - 10.0**-k for k in range(1, 7)] + [0.05 * i for i in range(1, 20)] + [0.33, 0.77]))
 NS = [1.0, 2.0, 3.0, 4.0, 6.0, 8.0, 2.5, 5.5]
